@@ -88,6 +88,33 @@ CHECKS = {
             "sets derivable from the layout files, CLDR_VERSION equals the data's; both generators are re-run and compared token-wise with the "
             "checked-in files.",
             "DESIGN.md section 5, C18", TRUST + " Hook: cfg(unic_locale_verif) read-only re-export."),
+    "C01": ("panic / CPU-time / exit-status monitor over every text-accepting entry point; Miri + AddressSanitizer in the thorough tier",
+            "21 groups of public entry points (both parsers by bytes/str/canonicalize, the four subtag types, ExtensionsMap, every extension getter/setter with the "
+            "input as key, value, attribute or tag, serde deserialisation, and to_string/direction/maximize/minimize on every parsed value) are called under "
+            "catch_unwind with a recording panic hook; a watchdog thread decides 'hang' on the worker thread's CPU time inside one case (> 20 CPU-s), the driver "
+            "observes aborts / stack overflows as the worker's exit status. Inputs: bounded-exhaustive token sequences, random/mutated/corpus strings, non-UTF-8, NUL, "
+            "1 MB inputs, 200k-subtag inputs; likely-subtags and direction queries over the triple universe. Thorough also runs under Miri and ASan.",
+            "DESIGN.md section 5, C01", TRUST),
+    "C11": ("reference-formula monitor + derived laws, exhaustive over a product domain",
+            "matches() of LanguageIdentifier, Locale and Language is compared with the wildcard formula evaluated on the observed fields for all 46 656 "
+            "(a, b, flags) of the product domain (exhaustive) with and without extensions, and on random related pairs; both-false <=> ==, swap symmetry, reflexivity, "
+            "monotonicity in each flag, private tags force false, LanguageIdentifier-vs-Locale operands.",
+            "DESIGN.md section 5, C11", TRUST),
+    "C12": ("pairwise relation checker over a pool of values reached by different routes",
+            "All ordered pairs of a pool (3000 quick / 25000 thorough values, each logical value reached along 5 routes): == <=> equal to_string(), equal => same "
+            "hash and cmp Equal, antisymmetry, cmp of ids == field-by-field key with absent first, Locale order has the id as major key, pool sorted by Ord is "
+            "sorted by the key and transitive; == &str true iff canonical text, for LanguageIdentifier and the four subtag types.",
+            "DESIGN.md section 5, C12", TRUST),
+    "C17": ("round-trip + injectivity monitor; the raw (unsafe) round trips also under Miri (both tiers) and ASan (thorough)",
+            "from_parts(into_parts(x)) == x for reachable LanguageIdentifier/Locale values (extension string re-parsed), from_raw_parts_unchecked, every "
+            "permutation/duplication of <= 4 variants equals parsing the joined string, subtag -> integer -> from_raw_unchecked is the identity with the "
+            "little-endian text intact; exhaustive over all 26^4 scripts, all regions, all 2-3 letter languages with injectivity counts.",
+            "DESIGN.md section 5, C17", TRUST),
+    "C19": ("round-trip + differential monitor (serde_json vs FromStr) on the shared stream and reachable values",
+            "Serialisation must be exactly the JSON string of to_string(); deserialising that yields an equal value; for every UTF-8 input of the stream, "
+            "deserialising it from three JSON renderings (plain, fully \\u-escaped, mixed) and from serde_json::Value succeeds iff parsing succeeds, with equal "
+            "values; 18 non-string JSON documents (incl. 200-deep nesting) must give Err without panicking.",
+            "DESIGN.md section 5, C19", TRUST),
 }
 
 REASON_PENDING = "check not built yet in this round; design in DESIGN.md section 5"
